@@ -864,6 +864,20 @@ func (ce *cenv) evalCall(e *CExpr) cvar {
 		}
 		t := types.NewPointer(obj.Type())
 		return cvar{x.unbox(iv, t), t}
+	case "unboxval":
+		// unboxval(x, TypeName): value of a package type stored in interface x
+		argn(2)
+		v := ce.eval(e.Args[0])
+		iv := x.toTerm(v.v, v.t)
+		obj := x.env.pkg.Types.Scope().Lookup(e.Args[1].Name)
+		if obj == nil {
+			ce.fail("unboxval: unknown type %s", e.Args[1].Name)
+		}
+		uv := x.unbox(iv, obj.Type())
+		if tm, ok := uv.(*Term); ok {
+			ce.typed(obj.Type(), tm)
+		}
+		return cvar{uv, obj.Type()}
 	case "uf":
 		// uf(name, args...) : uninterpreted integer function
 		if len(e.Args) < 1 {
